@@ -58,6 +58,27 @@ impl Default for BuildCfg<'_> {
 
 static INLINE: InlineExecutor = InlineExecutor;
 
+thread_local! {
+  /// set by a check (C04) that installs its own order callback around a build
+  pub static CALLER_OWNS_ORDER: std::cell::Cell<bool> = const { std::cell::Cell::new(false) };
+}
+
+/// Unless the caller explores the orders itself, every hash-ordered site of the
+/// builder (two drains, the issue order of cache-only probes) is pinned to its
+/// canonical (sorted) order for the duration of `f`, so that a run is a
+/// function of its choice prefix and nothing else.
+fn with_canonical_orders<T>(f: impl FnOnce() -> T) -> T {
+  let owned = CALLER_OWNS_ORDER.with(|c| c.get());
+  if !owned {
+    deno_graph::verif_hooks::set_drain_order_callback(Some(Box::new(|_site, n| (0..n).collect())));
+  }
+  let r = f();
+  if !owned {
+    deno_graph::verif_hooks::set_drain_order_callback(None);
+  }
+  r
+}
+
 pub fn build_graph<'a>(
   graph: &mut ModuleGraph,
   roots: Vec<ModuleSpecifier>,
@@ -92,7 +113,7 @@ pub fn build_graph<'a>(
   }
   let sched_cost = cfg.sched_cost;
   let fut = graph.build(roots, cfg.imports, loader, options);
-  drive(fut, &sched, ch, sched_cost)
+  with_canonical_orders(|| drive(fut, &sched, ch, sched_cost))
 }
 
 pub fn reload_graph<'a>(
@@ -116,7 +137,7 @@ pub fn reload_graph<'a>(
     ..Default::default()
   };
   let fut = graph.reload(specifiers, loader, options);
-  drive(fut, &sched, ch, cfg.sched_cost)
+  with_canonical_orders(|| drive(fut, &sched, ch, cfg.sched_cost))
 }
 
 pub fn res_json(r: &Resolution) -> Value {
